@@ -131,8 +131,9 @@ class JSXTag:
         def tagify_tagifiable_and_get_metadata(x: Any) -> Any:
             if isinstance(x, Tagifiable) and not isinstance(x, (Tag, JSXTag)):
                 x = x.tagify()
-            else:
-                x = copy.copy(x)
+            # Always copy: the walk stores into x, and the result of tagify() may be an
+            # object that the tagifiable keeps (and hands out again next time).
+            x = copy.copy(x)
             if isinstance(x, MetadataNode):
                 metadata_nodes.append(x)
             return x
